@@ -162,9 +162,13 @@ def rule_oh(A: Analysis, rep):
     tees = [n for n in g.nodes if n.kind == "stmt" and A.calls_in(n.ast, "TeeProcessor.tee_pipe")]
     ok = len(tees) == 1
     if ok:
-        gs = A.path_guards(g, g.entry, tees[0], mt)
+        # the assert on the pipe is not a condition of the tee: drop none(pipe) atoms
+        gs = [frozenset(x for x in c_ if not x[0].startswith("none(")) for c_ in A.path_guards(g, g.entry, tees[0], mt)]
         c = A.calls_in(tees[0].ast, "TeeProcessor.tee_pipe")[0]
-        ok = gs == [frozenset({("eq(RecordType.Teed,self._type)", True)})] and [norm(a) for a in c.args] == [mt.params[1], mt.params[2], "self._output_path"] and \
+        tp_ = A.fn("utils.tee.TeeProcessor.tee_pipe")
+        bound = {k: norm(v_) for k, v_ in A.bind_args(c, tp_).items()}
+        ok = gs == [frozenset({("eq(RecordType.Teed,self._type)", True)})] and \
+            bound == {tp_.params[1]: mt.params[1], tp_.params[2]: mt.params[2], tp_.params[3]: "self._output_path"} and \
             isinstance(tees[0].ast, ast.Assign) and norm(tees[0].ast.targets[0]) == "self._tee_future"
     rep.check(ok, "OH2", "tee exactly for Teed handlers, into the handler's log", mt.node, "", "maybe_tee no longer tees (pipe, stream) into self._output_path exactly for Teed handlers")
     fn = A.fn(OH + "finish")
@@ -213,12 +217,17 @@ def rule_rt9(A: Analysis, rep, rt_var="record_type"):
         if isinstance(val_, ast.Call) and A.res.is_call_to(val_, "conductor.utils.output_handler.OutputHandler"):
             c = val_
             s = ast.Assign(targets=[tg_], value=val_)
-            p = c.args[0]
+            ba_ = A.bind_args(c, A.fn("utils.output_handler.OutputHandler.__init__"))
+            ohp = A.fn("utils.output_handler.OutputHandler.__init__").params
+            p = ba_.get(ohp[1])
+            rt_arg = ba_.get(ohp[2])
+            if p is None:
+                continue
             fname = None
             if isinstance(p, ast.BinOp) and isinstance(p.op, ast.Div) and norm(p.left) == "self._output_path":
                 v = A.prog.fold(mod, p.right)
                 fname = v if v is not NOFOLD else None
-            handlers[norm(s.targets[0])] = (fname, norm(c.args[1]) if len(c.args) > 1 else None)
+            handlers[norm(s.targets[0])] = (fname, norm(rt_arg) if rt_arg is not None else None)
     by_file = {v[0]: k for k, v in handlers.items()}
     so, se = by_file.get("stdout.log"), by_file.get("stderr.log")
     rep.check(so is not None and se is not None and len(handlers) == 2 and all(v[1] == rt_var for v in handlers.values()), "RT9", "one handler per stream, stdout.log / stderr.log", fi.node,
